@@ -52,6 +52,20 @@ def apply_op(lab, op, **runkw):
         if _isreg(lab, op[1], op[2]):
             data = lab.read(op[1], op[2])
             lab.write(op[3], op[4], data, file_mtime_ns(op[4], len(data), 77))
+    elif k == "resizekeep":
+        # the file grows (k > 0: bytes appended) or shrinks (k < 0) IN PLACE - same inode - and gets its old time-stamp back:
+        # only the size tells
+        _, d, p_, kk = op
+        if _isreg(lab, d, p_):
+            fp = lab.p(d, p_)
+            st = os.lstat(fp)
+            with open(fp, "r+b") as f:
+                if kk > 0:
+                    f.seek(0, 2)
+                    f.write(lab.gen("resizekeep:%s:%d" % (p_, st.st_size), kk))
+                else:
+                    f.truncate(max(1, st.st_size + kk))
+            os.utime(fp, ns=(st.st_mtime_ns, st.st_mtime_ns))
     elif k == "swapinodes":
         # two files of one disk exchange their inode numbers: names, bytes, sizes and time-stamps all stay what they were
         # (rename both, then put the bytes back in place) - what a restore onto a fresh file system does to inode numbers
